@@ -32,7 +32,7 @@ theorem delivered_exactly (cfg : Cfg) (hw : cfg.WF) (ops : List Op) (ov : List (
     (msgsOf (step cfg (reach cfg ops).1 (.notify a ov))).filter (fun msg => msg.sub == i) =
       match (reach cfg ops).2.recs i with
       | some r => if r.alive cfg (reach cfg ops).2.now ∧ suffixMatch r.filter a = true
-                  then [⟨.notification a, i, r.notifyTo, (reach cfg ops).1.outcomeFor ov i r.notifyTo⟩] else []
+                  then [⟨.notification a, i, r.notifyTo, (reach cfg ops).1.outcomeFor ov i r.notifyTo, r.notifyRefs⟩] else []
       | none => [] :=
   notify_filter (sim_reach hw ops) ov a i
 
@@ -57,7 +57,7 @@ theorem delivered_iff (cfg : Cfg) (hw : cfg.WF) (ops : List Op) (ov : List (Nat 
   · rintro ⟨r, hr, ha, hm⟩
     rw [hr] at h
     simp only [ha, hm, and_self, if_true] at h
-    have : (⟨.notification a, i, r.notifyTo, (reach cfg ops).1.outcomeFor ov i r.notifyTo⟩ : Msg) ∈
+    have : (⟨.notification a, i, r.notifyTo, (reach cfg ops).1.outcomeFor ov i r.notifyTo, r.notifyRefs⟩ : Msg) ∈
         (msgsOf (step cfg (reach cfg ops).1 (.notify a ov))).filter (fun msg => msg.sub == i) := by
       rw [h]; exact List.mem_singleton.mpr rfl
     exact ⟨_, (List.mem_filter.mp this).1, rfl⟩
@@ -96,7 +96,7 @@ theorem filter_membership_partial (filter : List Str) (a : Str) (ha : a ∈ Gene
 
 /-- Subscribe: the granted expiry never exceeds the provider maximum nor a requested duration > 0 -/
 theorem granted_le_partial (cfg : Cfg) (st st' : State) (nt : Nat) (et : Option Nat) (f : Option (List Str)) (d : Bool)
-    (e : Option Nat) (i g : Nat) (h : step cfg st (.subscribe nt et f d e) = (st', .subscribed i g)) :
+    (e : Option Nat) (nr er : Bool) (i g : Nat) (h : step cfg st (.subscribe nt et f d e nr er) = (st', .subscribed i g)) :
     g ≤ cfg.maxDur ∧ ∀ r, e = some r → 0 < r → g ≤ r := by
   cases f with
   | none => simp [step] at h
@@ -109,7 +109,7 @@ theorem granted_le_partial (cfg : Cfg) (st st' : State) (nt : Nat) (et : Option 
 
 /-- … and what the code does for an absent `Expires` and for `PT0S`: the maximum -/
 theorem granted_zero_or_absent (cfg : Cfg) (st st' : State) (nt : Nat) (et : Option Nat) (f : Option (List Str)) (d : Bool)
-    (e : Option Nat) (i g : Nat) (h : step cfg st (.subscribe nt et f d e) = (st', .subscribed i g))
+    (e : Option Nat) (nr er : Bool) (i g : Nat) (h : step cfg st (.subscribe nt et f d e nr er) = (st', .subscribed i g))
     (he : e = none ∨ e = some 0) : g = cfg.maxDur := by
   cases f with
   | none => simp [step] at h
@@ -122,13 +122,13 @@ theorem granted_zero_or_absent (cfg : Cfg) (st st' : State) (nt : Nat) (et : Opt
 
 /-- full statement: the granted expiry never exceeds the requested duration -/
 def granted_le_full : Prop :=
-  ∀ (cfg : Cfg) (st st' : State) (nt : Nat) (et : Option Nat) (f : Option (List Str)) (d : Bool) (r i g : Nat),
-    step cfg st (.subscribe nt et f d (some r)) = (st', .subscribed i g) → g ≤ r
+  ∀ (cfg : Cfg) (st st' : State) (nt : Nat) (et : Option Nat) (f : Option (List Str)) (d nr er : Bool) (r i g : Nat),
+    step cfg st (.subscribe nt et f d (some r) nr er) = (st', .subscribed i g) → g ≤ r
 
 /-- false of the code for `PT0S` (known finding, replayed at run time) -/
 theorem granted_le_full_fails : ¬ granted_le_full := by
   intro h
-  have := h (cfgOf .path 3000 1 true) init _ 0 none (some []) true 0 0 3000 rfl
+  have := h (cfgOf .path 3000 1 true) init _ 0 none (some []) true true false 0 0 3000 rfl
   exact absurd this (by decide)
 
 /-- Renew: same bounds; the answer is the new grant -/
@@ -225,10 +225,27 @@ theorem stop_ends_once (cfg : Cfg) (hw : cfg.WF) (ops : List Op) (ov : List (Nat
     (msgsOf (step cfg (reach cfg ops).1 (.stop true ov))).filter (fun msg => msg.sub == i) =
       match (reach cfg ops).2.recs i with
       | some r => if r.alive cfg (reach cfg ops).2.now
-                  then [⟨.subscriptionEnd, i, r.endTo.getD r.notifyTo, (reach cfg ops).1.outcomeFor ov i (r.endTo.getD r.notifyTo)⟩]
+                  then [⟨.subscriptionEnd, i, r.endTo.getD r.notifyTo, (reach cfg ops).1.outcomeFor ov i (r.endTo.getD r.notifyTo), r.endRefs⟩]
                   else []
       | none => [] :=
   stop_filter (sim_reach hw ops) ov i
+
+/-- full statement of the addressing clause: the SubscriptionEnd echoes the reference parameters of the endpoint it is
+    addressed to — those of EndTo if an EndTo endpoint was given (none if that has none), otherwise those of NotifyTo -/
+def end_refs_full : Prop := ∀ r : Rec, r.endRefs = r.endRefsSpec
+
+/-- false of the code: an EndTo endpoint without reference parameters is sent the NotifyTo ones (known finding) -/
+theorem end_refs_full_fails : ¬ end_refs_full := by
+  intro h
+  have := h ⟨0, some 1, [], 0, 0, 0, false, false, true, false⟩
+  exact absurd this (by decide)
+
+/-- in every other case the echoed reference parameters are exactly those of the target endpoint: EndTo's own when it
+    has some, NotifyTo's when no EndTo was given, none when neither has any -/
+theorem end_refs_partial (r : Rec) (h : ¬ (r.endTo.isSome = true ∧ r.endRef = false ∧ r.notifyRef = true)) :
+    r.endRefs = r.endRefsSpec := by
+  unfold Rec.endRefs Rec.endRefsSpec Rec.notifyRefs
+  cases he : r.endTo.isSome <;> cases hr : r.endRef <;> cases hn : r.notifyRef <;> simp_all
 
 /-- end messages switched off: nothing is sent -/
 theorem stop_off_sends_nothing (cfg : Cfg) (st : State) (ov : List (Nat × Outcome)) : msgsOf (step cfg st (.stop false ov)) = [] := rfl
@@ -255,20 +272,20 @@ theorem generated_constants_sane : 0 < Generated.Eventing.maxNotifyErrors ∧ 0 
 
 def cfg0 : Cfg := cfgOf .ref 3000 1 true
 def opsA : List Op :=
-  [.subscribe 0 (some 1) (some [[65], [66]]) true (some 500),   -- 0: stays alive, EndTo = 1
-   .subscribe 2 none (some [[65]]) true (some 100),              -- 1: expires at 100
-   .subscribe 3 none (some [[120, 65]]) true none,               -- 2: will be unsubscribed (suffix filter `xA`)
-   .subscribe 4 none (some [[65]]) true (some 0),                -- 3: delivery will fail; PT0S -> maximum
+  [.subscribe 0 (some 1) (some [[65], [66]]) true (some 500) true true,   -- 0: stays alive, EndTo = 1
+   .subscribe 2 none (some [[65]]) true (some 100) true false,              -- 1: expires at 100
+   .subscribe 3 none (some [[120, 65]]) true none true false,               -- 2: will be unsubscribed (suffix filter `xA`)
+   .subscribe 4 none (some [[65]]) true (some 0) false false,                -- 3: delivery will fail; PT0S -> maximum
    .setOutcome 4 .refused, .notify [65] [], .unsubscribe (some 2, none), .tick 100, .housekeeping]
 
-example : (step cfg0 (reach cfg0 opsA).1 (.notify [65] [(0, .parseError)])).2 = .sent [⟨.notification [65], 0, 0, .parseError⟩] := by decide
+example : (step cfg0 (reach cfg0 opsA).1 (.notify [65] [(0, .parseError)])).2 = .sent [⟨.notification [65], 0, 0, .parseError, .notify⟩] := by decide
 example : ∃ r, (reach cfg0 opsA).2.recs 0 = some r ∧ r.alive cfg0 (reach cfg0 opsA).2.now := ⟨_, rfl, by decide⟩
 example : ∃ r, (reach cfg0 opsA).2.recs 1 = some r ∧ ¬ r.alive cfg0 (reach cfg0 opsA).2.now := ⟨_, rfl, by decide⟩
 example : (reach cfg0 opsA).2.gone 2 := by decide
 example : (step cfg0 (reach cfg0 opsA).1 (.getStatus (some 0, none))).2 = .remaining 400 := by decide
 example : (step cfg0 (reach cfg0 opsA).1 (.getStatus (some 2, none))).2 = .fault := by decide
 example : (step cfg0 (reach cfg0 opsA).1 (.getStatus (none, some 0))).2 = .fault := by decide
-example : (step cfg0 (reach cfg0 opsA).1 (.stop true [])).2 = .sent [⟨.subscriptionEnd, 0, 1, .ok⟩] := by decide
-example : (step cfg0 init (.subscribe 4 none (some [[65]]) true (some 0))).2 = .subscribed 0 3000 := by decide
+example : (step cfg0 (reach cfg0 opsA).1 (.stop true [])).2 = .sent [⟨.subscriptionEnd, 0, 1, .ok, .endTo⟩] := by decide
+example : (step cfg0 init (.subscribe 4 none (some [[65]]) true (some 0) true false)).2 = .subscribed 0 3000 := by decide
 
 end Sdc.C08
